@@ -459,6 +459,11 @@ def report(run, rule, subject, f, disc, problems, undecided, okmsg, split=True):
     if soft:
         problems = [p for p in problems if not abstract_atoms(p[1])]
         undecided = list(undecided) + ['%s (depends on an abstracted value, not a witness)' % p[1][:160] for p in soft[:2]]
+    if problems and getattr(f, 'access', 'public') != 'public' and not (is_ctor(f) or is_dtor(f)):
+        # a private helper is a step of an operation, not an operation: it may leave the object in an intermediate state that its
+        # public callers repair.  The callers are analysed with the helper interpreted in place; here the finding is only noted.
+        undecided = list(undecided) + ['%s (private helper: judged through its public callers)' % p[1][:160] for p in problems[:2]]
+        problems = []
     if problems:
         for key in sorted(set(p[0] for p in problems)):
             msgs = [p[1] for p in problems if p[0] == key]
